@@ -80,12 +80,14 @@ class _TextCueParser:
     self.parent = span
 
     ts = vtt_timestamp_to_secs(token.timestamp)
+
+    # absolute begin time of the parent: begin times are relative to the parent element
+
     parent_begin = None
-    parent = self.parent
+    parent = span.parent()
     while parent is not None:
-      parent_begin = parent.get_begin()
-      if parent_begin is not None:
-        break
+      if parent.get_begin() is not None:
+        parent_begin = parent.get_begin() + (parent_begin if parent_begin is not None else 0)
       parent = parent.parent()
     if ts is not None and parent_begin is not None and parent_begin <= ts:
       span.set_begin(ts - parent_begin)
